@@ -38,12 +38,17 @@ def write_if_changed(path, content):
     return True
 
 # ------------------------------------------------------------------ Go side
-def build_go(log, bins=()):
+def build_go(log, bins=(), race_bins=()):
     """Build harness binaries + Tier-A tools from /repo's current working tree (hooks on)."""
     with Lock("go"):
         os.makedirs(os.path.join(BUILD, "bin"), exist_ok=True)
         hd = os.path.join(VERIF, "harness")
         shutil.copyfile(os.path.join(REPO, "go.sum"), os.path.join(hd, "go.sum"))
+        for b in race_bins:
+            # race-detector build (supporting exploration of concurrency clauses; thorough tier only)
+            rc, out = sh(["go", "build", "-race", "-tags", "verif", "-o", os.path.join(BUILD, "bin", b + "_race"), "./cmd/" + b],
+                         cwd=hd, env=GOENV, timeout=1800)
+            log.append("go build -race %s rc=%d\n%s" % (b, rc, out[-2000:]))
         for b in ["constdump"] + list(bins):
             rc, out = sh(["go", "build", "-tags", "verif", "-o", os.path.join(BUILD, "bin", b), "./cmd/" + b],
                          cwd=hd, env=GOENV, timeout=1500)
@@ -241,7 +246,8 @@ def run_check(pid, cfg, tier, seed, replay=None):
     known_hit = []
     notes = []
 
-    ok, out = build_go(log, sorted(set(su["bin"] for su in cfg["suites"])))
+    race_bins = sorted(set(su["bin"] for su in cfg["suites"] if su.get("race"))) if tier == "thorough" else []
+    ok, out = build_go(log, sorted(set(su["bin"] for su in cfg["suites"])), race_bins)
     if not ok:
         # /repo or harness does not compile: nothing can be said; report as infrastructure error
         print("ERROR: go build failed\n" + out[-3000:])
@@ -291,13 +297,18 @@ def run_check(pid, cfg, tier, seed, replay=None):
     for si, suite in enumerate(cfg["suites"]):
         n = suite["n"][tier]
         outp = os.path.join(workdir, "%s_%d.jsonl" % (suite["name"], si))
+        binname = suite["bin"]
+        suite_env = GOENV
+        if suite.get("race") and tier == "thorough" and os.path.exists(os.path.join(BUILD, "bin", binname + "_race")):
+            binname += "_race"
+            suite_env = dict(GOENV, GORACE="halt_on_error=1 exitcode=66")
         if replay:
-            cmd = [os.path.join(BUILD, "bin", suite["bin"]), suite["name"], "-seed", str(replay["seed"] + si), "-n", str(n), "-out", outp]
+            cmd = [os.path.join(BUILD, "bin", binname), suite["name"], "-seed", str(replay["seed"] + si), "-n", str(n), "-out", outp]
         else:
-            cmd = [os.path.join(BUILD, "bin", suite["bin"]), suite["name"], "-seed", str(seed + si), "-n", str(n), "-out", outp]
+            cmd = [os.path.join(BUILD, "bin", binname), suite["name"], "-seed", str(seed + si), "-n", str(n), "-out", outp]
         cmd += suite.get("args", [])
         try:
-            rc, out = sh(cmd, cwd=workdir, timeout=suite.get("timeout", 3000), env=GOENV)
+            rc, out = sh(cmd, cwd=workdir, timeout=suite.get("timeout", 3000), env=suite_env)
         except subprocess.TimeoutExpired:
             rc, out = 124, "timeout"
         log.append("harness %s rc=%d %s" % (suite["name"], rc, out[-3000:]))
